@@ -325,6 +325,54 @@ Proof.
 Qed.
 Print Assumptions C06_parse_lattice_option.
 
+(* ---- FILL arrays on the cell card (ParseMCNPCell.parse_fill_kw) -----------------
+   tokens in reading order after "(", ")" and "=" have become blanks.
+   spells_int t u: t is a spelling of the integer u; param_token t: t starts
+   like a number and to_float reads it; keyword_or_end: the next token (if any)
+   does not start like a number.                                              *)
+(* ranges, then EXACTLY size(ranges) universes in card order, then every
+   following numeric token - however many - is a parameter of ONE
+   transformation of the whole array: nothing is rejected, nothing is attached
+   to a single entry *)
+Theorem C06_parse_fill_kw_array :
+  forall (first : string) (more : list string) (bs : bounds) (utoks : list string) (us : list Z)
+         (sur tail : list string),
+  Forall2 spells_range (first :: more) bs -> wf_bounds bs ->
+  Forall2 spells_int utoks us -> Z.of_nat (List.length us) = size bs ->
+  Forall param_token sur -> keyword_or_end tail ->
+  parse_fill_kw first (more ++ utoks ++ sur ++ tail)%list = Ok (mkFillKw (Some bs) (FArr us) sur tail).
+Proof. exact parse_fill_kw_array. Qed.
+Print Assumptions C06_parse_fill_kw_array.
+
+(* too few universes before the end of the card: ParseMCNPCellError; and what
+   0 / 1 / 3 / any other number of parameter tokens become *)
+Theorem C06_parse_fill_kw_short_and_shapes :
+  (forall (first : string) (more : list string) (bs : bounds) (utoks : list string) (us : list Z),
+     Forall2 spells_range (first :: more) bs -> Forall2 spells_int utoks us ->
+     (Z.of_nat (List.length us) < size bs)%Z ->
+     parse_fill_kw first (more ++ utoks)%list = Err EParseCell) /\
+  (forall star : bool,
+     fill_params_shape star [] = PNone /\
+     (forall t, fill_params_shape star [t] = PNumber t) /\
+     (forall a b c, fill_params_shape star [a; b; c] = PTranslation a b c) /\
+     (forall l, List.length l <> 0%nat -> List.length l <> 1%nat -> List.length l <> 3%nat ->
+        fill_params_shape star l = PMatrix star l)).
+Proof. split; [exact parse_fill_kw_array_short|exact fill_params_shapes]. Qed.
+Print Assumptions C06_parse_fill_kw_short_and_shapes.
+
+(* finding array_entry_transformation: 'fill=-1:1 0:0 0:0 5 5 5(0 1 0)' - MCNP
+   attaches (0 1 0) to the LAST entry; the code makes it the translation of the
+   whole array (then applied to every element by develop_lattice) *)
+Theorem C06_array_entry_transformation_refuted :
+  exists first stack k,
+    parse_fill_kw first stack = Ok k /\
+    fk_univs k = FArr [5; 5; 5]%Z /\ fill_params_shape false (fk_params k) = PTranslation "0" "1" "0".
+Proof.
+  exists "-1:1"%string, ["0:0"; "0:0"; "5"; "5"; "5"; "0"; "1"; "0"; "imp:n"; "1"]%string.
+  eexists. split; [vm_compute; reflexivity|]. split; reflexivity.
+Qed.
+Print Assumptions C06_array_entry_transformation_refuted.
+
 (* ---- non-vacuity ------------------------------------------------------------ *)
 (* a skew 2-D unit cell: planes x = +-1 (far plane first) and x + y = +-1 (near
    plane first, normal of the first one pointing into the cell) *)
